@@ -1,0 +1,36 @@
+//go:build verif
+
+package util
+
+// Contracts for the verification framework in /verif (comment-only file; compiled
+// only with -tags verif, where it contributes nothing but these comments).
+
+//@ // cryptographic and parsing helpers are uninterpreted: their contracts are assumed, not verified
+//@ func CalculateHash(input) (res)
+//@   trusted
+//@   ensures res == sha256hex(input) && len(res) == 64
+//@ func ExtractFieldFromJSON(jsonInput, field) (res, err)
+//@   trusted
+//@   ensures err == nil ==> res == jsonField(jsonInput, field)
+//@ func GetSignatureAlgorithmFromString(name) (alg, err)
+//@   trusted
+//@   ensures (err == nil) == algKnown(name)
+//@   ensures err == nil ==> alg == algOf(name)
+//@ func GetUserCertificateFromString(inputCert) (cert, err)
+//@   trusted
+//@   ensures (err == nil) == certOk(inputCert)
+//@   ensures err == nil ==> cert != nil && certSource(cert) == inputCert
+//@
+//@ // HashConcat joins its arguments with ':' — verified for the argument lists used (2 and 3 strings)
+//@ spec func joinColon(row [int]str, n int) str = n <= 1 ? row[0] : joinColon(row, n - 1) + ":" + row[n - 1]
+//@ func HashConcat(s) (result)
+//@   ensures len(s) == 0 ==> result == ""
+//@   ensures len(s) == 2 ==> result == s[0] + ":" + s[1]
+//@   ensures len(s) == 3 ==> result == s[0] + ":" + s[1] + ":" + s[2]
+//@   prop C15
+//@ loop HashConcat#1
+//@   invariant 0 <= \i && \i <= len(s)
+//@   invariant \i == 0 ==> result == ""
+//@   invariant \i == 1 ==> result == s[0]
+//@   invariant \i == 2 ==> result == s[0] + ":" + s[1]
+//@   invariant \i == 3 ==> result == s[0] + ":" + s[1] + ":" + s[2]
